@@ -109,6 +109,26 @@ def check_config(cfg, w, rep):
             check_remove_fully(cfg, w, fw, rep, lf)
     rep.floor("removal_entry_points", n_entries, 12 if is_async else 6, cfg)
 
+    # ---- (e) a removed key is not found by reads, metadata and listing: the tombstone these entry points append is
+    #      honoured by every lookup (C05 b: last record wins, a None-integrity record clears) and by the listing
+    #      (C10 b/d: last-wins de-duplication by key, tombstones dropped after it) ----
+    from ..framework import Report
+    from . import c05, c10
+    for mod, tag, rules in ((c05, "e-lookup", ("b-full-traversal", "b-decision-table", "b-stream", "b-returns-fold")),
+                            (c10, "e-listing", None)):
+        sub = Report(mod.PROP)
+        if mod is c05:
+            for p_ in sorted(find_fns(w)):
+                c05.check_find(cfg, w, sub, prog.fns[p_])
+        else:
+            c10.check_config(cfg, w, sub)
+        for (c_, rule, k, desc, ok) in sub.obligations:
+            if ok:
+                rep.ob(cfg, "%s/%s" % (tag, rule), k, desc)
+        for k, v in sub.violations.items():
+            rep.violation("%s:%s" % (tag, k), "a removed key could still be found — " + v.msg, loc=v.loc, config=cfg,
+                          rule="%s/%s" % (tag, v.rule or ""), witness=v.witness)
+
 
 def check_set(cfg, w, fw, rep, lf, may, must, what, want_key=False, want_sri=False):
     key = fn_key(lf)
